@@ -321,7 +321,7 @@ func (f *Filter) Walk(rest, path Expr, nodes []any, cb func(path Expr, nodes []a
 	switch tv := data.(type) {
 	case []any:
 		for i, v := range tv {
-			if f.Match(v) {
+			if f.matchWithRoot(v, nodes[0]) {
 				path[len(path)-1] = Nth(i)
 				nodes[len(nodes)-1] = v
 				if 0 < len(rest) {
@@ -335,7 +335,7 @@ func (f *Filter) Walk(rest, path Expr, nodes []any, cb func(path Expr, nodes []a
 		size := tv.Size()
 		for i := 0; i < size; i++ {
 			v := tv.ValueAtIndex(i)
-			if f.Match(v) {
+			if f.matchWithRoot(v, nodes[0]) {
 				path[len(path)-1] = Nth(i)
 				nodes[len(nodes)-1] = v
 				if 0 < len(rest) {
@@ -347,7 +347,7 @@ func (f *Filter) Walk(rest, path Expr, nodes []any, cb func(path Expr, nodes []a
 		}
 	case gen.Array:
 		for i, v := range tv {
-			if f.Match(v) {
+			if f.matchWithRoot(v, nodes[0]) {
 				path[len(path)-1] = Nth(i)
 				nodes[len(nodes)-1] = v
 				if 0 < len(rest) {
@@ -365,7 +365,7 @@ func (f *Filter) Walk(rest, path Expr, nodes []any, cb func(path Expr, nodes []a
 			}
 			sort.Strings(keys)
 			for _, k := range keys {
-				if f.Match(tv[k]) {
+				if f.matchWithRoot(tv[k], nodes[0]) {
 					path[len(path)-1] = Child(k)
 					nodes[len(nodes)-1] = tv[k]
 					if 0 < len(rest) {
@@ -384,7 +384,7 @@ func (f *Filter) Walk(rest, path Expr, nodes []any, cb func(path Expr, nodes []a
 			}
 			sort.Strings(keys)
 			for _, k := range keys {
-				if f.Match(tv[k]) {
+				if f.matchWithRoot(tv[k], nodes[0]) {
 					path[len(path)-1] = Child(k)
 					nodes[len(nodes)-1] = tv[k]
 					if 0 < len(rest) {
@@ -400,7 +400,7 @@ func (f *Filter) Walk(rest, path Expr, nodes []any, cb func(path Expr, nodes []a
 		sort.Strings(keys)
 		for _, key := range keys {
 			v, _ := tv.ValueForKey(key)
-			if f.Match(v) {
+			if f.matchWithRoot(v, nodes[0]) {
 				path[len(path)-1] = Child(key)
 				nodes[len(nodes)-1] = v
 				if 0 < len(rest) {
@@ -417,7 +417,7 @@ func (f *Filter) Walk(rest, path Expr, nodes []any, cb func(path Expr, nodes []a
 			cnt := rv.Len()
 			for i := 0; i < cnt; i++ {
 				v := rv.Index(i).Interface()
-				if f.Match(v) {
+				if f.matchWithRoot(v, nodes[0]) {
 					path[len(path)-1] = Nth(i)
 					nodes[len(nodes)-1] = v
 					if 0 < len(rest) {
@@ -435,7 +435,7 @@ func (f *Filter) Walk(rest, path Expr, nodes []any, cb func(path Expr, nodes []a
 			for _, k := range keys {
 				mv := rv.MapIndex(k)
 				v := mv.Interface()
-				if f.Match(v) {
+				if f.matchWithRoot(v, nodes[0]) {
 					path[len(path)-1] = Child(k.String())
 					nodes[len(nodes)-1] = v
 					if 0 < len(rest) {
